@@ -1149,6 +1149,9 @@ def ws_layout_ok(toks, got, stopped):
 
 
 def oracle(req, impl):
+    if " !SUBSET-CALLBACKS-DIFFER" in impl:
+        return ("with only a subset of the three syntax callbacks registered the parse does not deliver the same events: "
+                + impl[impl.index(" !SUBSET-CALLBACKS-DIFFER") + 1:][:160])
     del QBAD[:]
     sp = split_impl(impl)
     if QBAD:
